@@ -829,6 +829,64 @@ func legacyPlainKeyKind(k reflect.Kind) bool {
 	return false
 }
 
+// compareMapKeys orders two map keys of the same type by their Go value.
+// It is only used to break ties between keys that have the same JSON name.
+// Pointers are ordered by address, which is stable only within a process.
+func compareMapKeys(x, y reflect.Value) int {
+	switch x.Kind() {
+	case reflect.Bool:
+		switch {
+		case x.Bool() == y.Bool():
+			return 0
+		case !x.Bool():
+			return -1
+		default:
+			return +1
+		}
+	case reflect.Int, reflect.Int8, reflect.Int16, reflect.Int32, reflect.Int64:
+		return cmp.Compare(x.Int(), y.Int())
+	case reflect.Uint, reflect.Uint8, reflect.Uint16, reflect.Uint32, reflect.Uint64, reflect.Uintptr:
+		return cmp.Compare(x.Uint(), y.Uint())
+	case reflect.Float32, reflect.Float64:
+		return cmp.Compare(x.Float(), y.Float())
+	case reflect.Complex64, reflect.Complex128:
+		if c := cmp.Compare(real(x.Complex()), real(y.Complex())); c != 0 {
+			return c
+		}
+		return cmp.Compare(imag(x.Complex()), imag(y.Complex()))
+	case reflect.String:
+		return strings.Compare(x.String(), y.String())
+	case reflect.Pointer, reflect.UnsafePointer, reflect.Chan:
+		return cmp.Compare(x.Pointer(), y.Pointer())
+	case reflect.Struct:
+		for i := range x.NumField() {
+			if c := compareMapKeys(x.Field(i), y.Field(i)); c != 0 {
+				return c
+			}
+		}
+	case reflect.Array:
+		for i := range x.Len() {
+			if c := compareMapKeys(x.Index(i), y.Index(i)); c != 0 {
+				return c
+			}
+		}
+	case reflect.Interface:
+		switch {
+		case x.IsNil() && y.IsNil():
+			return 0
+		case x.IsNil():
+			return -1
+		case y.IsNil():
+			return +1
+		case x.Elem().Type() != y.Elem().Type():
+			return strings.Compare(x.Elem().Type().String(), y.Elem().Type().String())
+		default:
+			return compareMapKeys(x.Elem(), y.Elem())
+		}
+	}
+	return 0
+}
+
 func makeMapArshaler(t reflect.Type) *arshaler {
 	// NOTE: The logic below disables namespaces for tracking duplicate names
 	// when handling map keys with a unique representation.
@@ -1007,11 +1065,14 @@ func makeMapArshaler(t reflect.Type) *arshaler {
 					name := xe.UnwriteOnlyObjectMemberName()
 					members[i] = member{name, k, v}
 				}
-				// TODO: If AllowDuplicateNames is enabled, then sort according
-				// to reflect.Value as well if the names are equal.
-				// See internal/fmtsort.
+				// Distinct keys may have equal names (e.g., with AllowDuplicateNames
+				// and AllowInvalidUTF8); order those according to the Go key
+				// so that the output does not depend on the map iteration order.
 				slices.SortFunc(members, func(x, y member) int {
-					return strings.Compare(x.name, y.name)
+					if c := strings.Compare(x.name, y.name); c != 0 {
+						return c
+					}
+					return compareMapKeys(x.key.Value, y.key.Value)
 				})
 				for _, member := range members {
 					if err := enc.WriteToken(jsontext.String(member.name)); err != nil {
